@@ -19,10 +19,19 @@
   injectivity modulo collisions of the hash function.
 -/
 import Hv.Misc.NameLemmas
+import Hv.Misc.Routing
 import Hv.Basic.Verdict
 
 namespace Hv.C20
-open Hv.Name
+open Hv.Name Hv.Routing
+
+/-- island `i` has a route, and the routed server is the only configured one whose range contains it -/
+def RoutedToOne (servers : List Server) (i : Nat) : Prop :=
+  ∃ s ∈ servers, route servers i = some s ∧ ∀ s' ∈ servers, covers s' i = true → s' = s
+
+/-- configurations `client.New` + `Connect` go along with: everything, unless the ranges are validated -/
+def Accepted (cfg : Cfg) (servers : List Server) (N : Nat) : Prop :=
+  cfg.validatesRanges = true → Partition servers N
 
 /-- The full-strength statement, for a given value of the code facts. -/
 structure Holds (cfg : Cfg) : Prop where
@@ -36,6 +45,11 @@ structure Holds (cfg : Cfg) : Prop where
   /-- equal locations ⇒ equal hash values and islands (injective modulo hash collisions) -/
   locInj : ∀ h1 h2 i1 i2 (depth per : Int) l, h1 < 2 ^ 64 → h2 < 2 ^ 64 →
       location cfg h1 i1 depth per = some l → location cfg h2 i2 depth per = some l → h1 = h2 ∧ i1 = i2
+  /-- asking the same name object again, for another island count, answers for THAT count -/
+  cacheSound : ∀ h N1 N2, 0 < N1 → 0 < N2 → N1 < 2 ^ 64 → N2 < 2 ^ 64 → secondCall cfg h N1 N2 = sdkIsland cfg h N2
+  /-- every server configuration the SDK client accepts routes every island of 1..N to exactly one
+      configured server -/
+  routed : ∀ servers N, Accepted cfg servers N → ∀ i, 1 ≤ i → i ≤ N → RoutedToOne servers i
 
 /-! ### island -/
 
@@ -113,14 +127,93 @@ theorem location_inj (cfg : Cfg) (h1 h2 i1 i2 : Nat) (depth per : Int) (l : Loc)
 theorem distinct_names_distinct_paths (a b : Name) (ha : a.NoSlash) (hb : b.NoSlash) (h : a ≠ b) : canon a ≠ canon b :=
   fun e => h (canon_inj a b ha hb e)
 
+/-! ### the per-object island cache across different island counts -/
+
+theorem second_call_sound (cfg : Cfg) (hg : cfg.goodIsland = true) (hk : cfg.cacheKeyedByN = true) (h N1 N2 : Nat)
+    (h1 : 0 < N1) (h2 : 0 < N2) (b1 : N1 < 2 ^ 64) (b2 : N2 < 2 ^ 64) : secondCall cfg h N1 N2 = sdkIsland cfg h N2 := by
+  obtain ⟨i, hi, hi1, _⟩ := island_range cfg hg h N1 h1 b1
+  simp only [secondCall, hi, hk, Bool.true_and]
+  by_cases e : N1 = N2
+  · subst e
+    have hi0 : i ≠ 0 := by omega
+    simp [hi, islandCached, hi0]
+  · simp [e]
+
+/-- N = 0 is outside every claim: both packages panic with an integer divide by zero -/
+theorem island_zero_panics (cfg : Cfg) (h : Nat) : sdkIsland cfg h 0 = none ∧ srvIsland cfg h 0 = none := by
+  simp [sdkIsland, srvIsland]
+
+/-! ### client routing table -/
+
+/-- When the configured ranges partition 1..N, every island routes to exactly one configured server. -/
+theorem route_partition (servers : List Server) (N : Nat) (hp : Partition servers N) (i : Nat) (h1 : 1 ≤ i) (hN : i ≤ N) :
+    RoutedToOne servers i := by
+  obtain ⟨s, hs, hc, hu⟩ := hp i h1 hN
+  have hsome : (servers.reverse.find? (covers · i)).isSome = true := by
+    rw [List.find?_isSome]; exact ⟨s, List.mem_reverse.mpr hs, hc⟩
+  cases hf : servers.reverse.find? (covers · i) with
+  | none => rw [hf] at hsome; simp at hsome
+  | some s' =>
+    have hm : s' ∈ servers := List.mem_reverse.mp (List.mem_of_find?_eq_some hf)
+    have hc' : covers s' i = true := List.find?_some (p := fun x => covers x i) hf
+    have : s' = s := hu s' hm hc'
+    subst this
+    exact ⟨s', hs, hf, hu⟩
+
+/-- …hence every swamp name (every hash value) reaches exactly one server. -/
+theorem every_name_routed (cfg : Cfg) (hg : cfg.goodIsland = true) (servers : List Server) (N : Nat)
+    (hp : Partition servers N) (h0 : 0 < N) (hN : N < 2 ^ 64) (h : Nat) :
+    ∃ i, sdkIsland cfg h N = some i ∧ RoutedToOne servers i := by
+  obtain ⟨i, hi, h1, h2⟩ := island_range cfg hg h N h0 hN
+  exact ⟨i, hi, route_partition servers N hp i h1 h2⟩
+
+/-- a gap: islands 1..5 and 7..10 are configured, island 6 has no route (GetServiceClient returns nil) -/
+def gapServers : List Server := [⟨1, 5, 0⟩, ⟨7, 10, 1⟩]
+/-- an overlap: 5 and 6 are claimed twice; the later entry silently wins -/
+def overlapServers : List Server := [⟨1, 6, 0⟩, ⟨5, 10, 1⟩]
+
+theorem routing_gap_witness : route gapServers 6 = none ∧ route gapServers 5 = some ⟨1, 5, 0⟩ := by decide
+theorem routing_overlap_witness :
+    route overlapServers 5 = some ⟨5, 10, 1⟩ ∧ covers ⟨1, 6, 0⟩ 5 = true ∧ coverCount overlapServers 5 = 2 := by decide
+
+/-- non-vacuity: a partitioning configuration (three servers, given out of order) -/
+def partServers : List Server := [⟨4, 7, 0⟩, ⟨1, 3, 1⟩, ⟨8, 10, 2⟩]
+example : gapOrOverlap partServers 10 = none ∧ gapOrOverlap gapServers 10 = some (6, 0) ∧
+          gapOrOverlap overlapServers 10 = some (5, 2) ∧ route partServers 2 = some ⟨1, 3, 1⟩ := by decide
+example : Partition partServers 10 := by
+  intro i h1 hN
+  have hcase : i ≤ 3 ∨ (4 ≤ i ∧ i ≤ 7) ∨ 8 ≤ i := by omega
+  rcases hcase with h | h | h
+  · refine ⟨⟨1, 3, 1⟩, by simp [partServers], by simp [covers]; omega, ?_⟩
+    intro s' hs' hc
+    simp only [partServers, List.mem_cons, List.mem_nil_iff, or_false] at hs'
+    rcases hs' with rfl | rfl | rfl <;> simp [covers] at hc ⊢ <;> omega
+  · refine ⟨⟨4, 7, 0⟩, by simp [partServers], by simp [covers]; omega, ?_⟩
+    intro s' hs' hc
+    simp only [partServers, List.mem_cons, List.mem_nil_iff, or_false] at hs'
+    rcases hs' with rfl | rfl | rfl <;> simp [covers] at hc ⊢ <;> omega
+  · refine ⟨⟨8, 10, 2⟩, by simp [partServers], by simp [covers]; omega, ?_⟩
+    intro s' hs' hc
+    simp only [partServers, List.mem_cons, List.mem_nil_iff, or_false] at hs'
+    rcases hs' with rfl | rfl | rfl <;> simp [covers] at hc ⊢ <;> omega
+
+/-- the client accepts the gap configuration silently, so "every island is routed" fails -/
+theorem refutes_unvalidated (cfg : Cfg) (hv : cfg.validatesRanges = false) : ¬ Holds cfg := by
+  intro hh
+  obtain ⟨s, _, hr, _⟩ := hh.routed gapServers 10 (fun h => by simp [hv] at h) 6 (by decide) (by decide)
+  rw [routing_gap_witness.1] at hr
+  cases hr
+
 /-! ### the full statement for repaired facts -/
 
 theorem holds_repaired (cfg : Cfg) (hg : cfg.goodIsland = true) (hc : cfg.clampStart = true)
-    (hs : cfg.rejectsSlash = true) : Holds cfg :=
+    (hs : cfg.rejectsSlash = true) (hv : cfg.validatesRanges = true) (hk : cfg.cacheKeyedByN = true) : Holds cfg :=
   ⟨island_range cfg hg, island_range_server cfg hg, island_sdk_eq_server cfg hg,
    fun h depth per _ => path_no_panic_clamped cfg hc h depth per,
    fun a b va vb hne => distinct_names_distinct_paths a b (va hs) (vb hs) hne,
-   fun h1 h2 i1 i2 depth per l b1 b2 e1 e2 => location_inj cfg h1 h2 i1 i2 depth per l b1 b2 e1 e2⟩
+   fun h1 h2 i1 i2 depth per l b1 b2 e1 e2 => location_inj cfg h1 h2 i1 i2 depth per l b1 b2 e1 e2,
+   fun h N1 N2 h1 h2 b1 b2 => second_call_sound cfg hg hk h N1 N2 h1 h2 b1 b2,
+   fun servers N ha i h1 hN => route_partition servers N (ha hv) i h1 hN⟩
 
 /-- What holds for the code as it is. -/
 structure HoldsPartial (cfg : Cfg) : Prop where
@@ -133,20 +226,24 @@ structure HoldsPartial (cfg : Cfg) : Prop where
   distinctNoSlash : ∀ a b : Name, a.NoSlash → b.NoSlash → a ≠ b → canon a ≠ canon b
   locInj : ∀ h1 h2 i1 i2 (depth per : Int) l, h1 < 2 ^ 64 → h2 < 2 ^ 64 →
       location cfg h1 i1 depth per = some l → location cfg h2 i2 depth per = some l → h1 = h2 ∧ i1 = i2
+  routedWhenPartition : ∀ servers N, Partition servers N → ∀ i, 1 ≤ i → i ≤ N → RoutedToOne servers i
 
 theorem holds_partial (cfg : Cfg) (hg : cfg.goodIsland = true) : HoldsPartial cfg :=
   ⟨island_range cfg hg, island_range_server cfg hg, island_sdk_eq_server cfg hg,
    fun hc h depth per => path_no_panic_iff cfg hc h depth per,
    fun hd h => path_no_panic_default cfg hd h,
    distinct_names_distinct_paths,
-   fun h1 h2 i1 i2 depth per l b1 b2 e1 e2 => location_inj cfg h1 h2 i1 i2 depth per l b1 b2 e1 e2⟩
+   fun h1 h2 i1 i2 depth per l b1 b2 e1 e2 => location_inj cfg h1 h2 i1 i2 depth per l b1 b2 e1 e2,
+   route_partition⟩
 
 /-! ### non-vacuity -/
 
-/-- the facts of the current tree -/
-def current : Cfg := ⟨true, true, 16, false, 2, false, false, 1, 1000⟩
+/-- the facts of the tree before the clamp repair (`start` not clamped) -/
+def current : Cfg := ⟨true, true, 16, false, 2, false, false, 1, 1000, false, false⟩
+/-- the facts after it: only the separator finding is left -/
+def clamped : Cfg := { current with clampStart := true }
 /-- repaired facts -/
-def repaired : Cfg := { current with clampStart := true, rejectsSlash := true }
+def repaired : Cfg := { current with clampStart := true, rejectsSlash := true, validatesRanges := true, cacheKeyedByN := true }
 
 example : current.goodIsland = true ∧ repaired.goodIsland = true := by decide
 /-- hash 0xd24ec4f1a98c6e5b, N = 1000: island 956 on both sides -/
@@ -158,8 +255,25 @@ example : charsPerLevel current 2000 = 3 ∧ charsPerLevel current 1 = 2 ∧ cha
 /-- the shipped configuration: one level of 3 chars -/
 example : hashedLevels current 0xd24ec4f1a98c6e5b 1 1000 = some [[13, 2, 4]] := by decide
 example : (⟨[0x61], [0x62], [0x63]⟩ : Name).NoSlash := by decide
+/-- with `start` clamped the deep layout yields three full levels, one partial level and two empty ones
+    (which `filepath.Join` drops), and a one-digit hash no longer panics at depth 2 -/
+example : hashedLevels clamped 0xd24ec4f1a98c6e5b 6 70000 =
+    some [[13, 2, 4, 14, 12], [4, 15, 1, 10, 9], [8, 12, 6, 14, 5], [11], [], []] ∧
+    hashedLevels clamped 0xf 2 1 = some [[15], []] := by decide
 
 /-! ### witnesses for the code as it is -/
+
+/-- hash 0xd24ec4f1a98c6e5b: island 956 of 1000; asked again for 5 islands the same object still says 956 -/
+theorem stale_cache_witness : secondCall current 0xd24ec4f1a98c6e5b 1000 5 = some 956 ∧
+    sdkIsland current 0xd24ec4f1a98c6e5b 5 = some 1 := by decide
+
+theorem refutes_stale_cache (cfg : Cfg) (hg : cfg.goodIsland = true) (hk : cfg.cacheKeyedByN = false) : ¬ Holds cfg := by
+  intro hh
+  have := hh.cacheSound 0xd24ec4f1a98c6e5b 1000 5 (by decide) (by decide) (by decide) (by decide)
+  simp only [Cfg.goodIsland, Bool.and_eq_true, beq_iff_eq] at hg
+  simp [secondCall, sdkIsland, islandCached, hk, hg.1.1] at this
+
+
 
 /-- depth 6 with 70 000 folders per level (5 chars per level): level 5 starts at 25 > 16 — the
     slice `hashHex[20:16]` of level 4 already panics, for every hash value. -/
@@ -232,29 +346,37 @@ structure Facts where
   ctorsRejectSlash : Tri
   defDepth : Option Nat
   defPer : Option Nat
+  routeLastWins : Tri          -- Connect fills c.serviceClients[island] range by range, in the order of the server list
+  routeLookupByIsland : Tri    -- GetServiceClient indexes the map with swampName.GetIslandID(c.allIslands); nil when absent
+  routeValidatesRanges : Tri   -- the ranges are checked to partition 1..allIslands
+  islandCacheKeyedByN : Tri    -- GetIslandID / GetFolderNumber return the memoised island only for the same N
   deriving Repr
 
 def cfgOf (f : Facts) : Cfg :=
   ⟨f.sdkPlusOne.isYes, f.srvPlusOne.isYes, f.srvBits.getD 0, f.hexVerb.isNo, f.cplMin.getD 0,
-   f.sliceClampsStart.isYes, f.ctorsRejectSlash.isYes, f.defDepth.getD 0, f.defPer.getD 0⟩
+   f.sliceClampsStart.isYes, f.ctorsRejectSlash.isYes, f.defDepth.getD 0, f.defPer.getD 0, f.routeValidatesRanges.isYes, f.islandCacheKeyedByN.isYes⟩
 
 /-- every structural fact the model relies on was recognised -/
 def recognised (f : Facts) : Bool :=
   f.sdkModHashByN == .yes && f.srvModHashByN == .yes && f.islandHashConcat == .yes &&
   f.hexVerb != .unknown && f.folderVerb == .yes && f.sliceClampsEnd == .yes && f.loadFixedIndices == .yes &&
   f.sdkPlusOne != .unknown && f.srvPlusOne != .unknown && f.sliceClampsStart != .unknown &&
-  f.ctorsRejectSlash != .unknown && f.srvBits.isSome && f.cplMin.isSome && f.defDepth.isSome && f.defPer.isSome
+  f.ctorsRejectSlash != .unknown && f.routeLastWins == .yes && f.routeLookupByIsland == .yes &&
+  f.routeValidatesRanges != .unknown && f.islandCacheKeyedByN != .unknown && f.srvBits.isSome && f.cplMin.isSome && f.defDepth.isSome && f.defPer.isSome
 
 def findings (f : Facts) : List String :=
   (if (cfgOf f).sdkPlusOne && (cfgOf f).srvPlusOne then [] else ["C20-island-off-by-one"]) ++
   (if (cfgOf f).clampStart then [] else ["C20-slice-out-of-range"]) ++
   (if (cfgOf f).clampStart || decide ((cfgOf f).defDepth ≤ 1) then [] else ["C20-default-config-panics"]) ++
-  (if (cfgOf f).rejectsSlash then [] else ["C20-separator-collision"])
+  (if (cfgOf f).rejectsSlash then [] else ["C20-separator-collision"]) ++
+  (if (cfgOf f).validatesRanges then [] else ["C20-routing-unvalidated"]) ++
+  (if (cfgOf f).cacheKeyedByN then [] else ["C20-island-cache-stale"])
 
 def classify (f : Facts) : Verdict :=
   if !recognised f then .undetermined "a pattern of name.go (server or SDK) was not recognised"
   else if (cfgOf f).srvBits != 16 then .undetermined "server island width is not 16 bits"
-  else if (cfgOf f).sdkPlusOne && (cfgOf f).srvPlusOne && (cfgOf f).clampStart && (cfgOf f).rejectsSlash then .holds
+  else if (cfgOf f).sdkPlusOne && (cfgOf f).srvPlusOne && (cfgOf f).clampStart && (cfgOf f).rejectsSlash &&
+      (cfgOf f).validatesRanges && (cfgOf f).cacheKeyedByN then .holds
   else .violated (findings f)
 
 theorem classify_sound (f : Facts) :
@@ -269,8 +391,8 @@ theorem classify_sound (f : Facts) :
       split
       · rename_i h
         simp only [Bool.and_eq_true] at h
-        obtain ⟨⟨⟨h1, h2⟩, h3⟩, h4⟩ := h
-        exact holds_repaired _ (by simp [Cfg.goodIsland, h1, h2, hb16]) h3 h4
+        obtain ⟨⟨⟨⟨⟨h1, h2⟩, h3⟩, h4⟩, h5⟩, h6⟩ := h
+        exact holds_repaired _ (by simp [Cfg.goodIsland, h1, h2, hb16]) h3 h4 h5 h6
       · rename_i h
         refine ⟨?_, fun hg => holds_partial _ hg⟩
         simp only [Bool.and_eq_true, not_and, Bool.not_eq_true] at h
@@ -282,6 +404,12 @@ theorem classify_sound (f : Facts) :
           | true =>
             cases h3 : (cfgOf f).clampStart with
             | false => exact refutes_unclamped _ h3
-            | true => exact refutes_separator _ (h ⟨⟨h1, h2⟩, h3⟩)
+            | true =>
+              cases h4 : (cfgOf f).rejectsSlash with
+              | false => exact refutes_separator _ h4
+              | true =>
+                cases h5 : (cfgOf f).validatesRanges with
+                | false => exact refutes_unvalidated _ h5
+                | true => exact refutes_stale_cache _ (by simp [Cfg.goodIsland, h1, h2, hb16]) (h ⟨⟨⟨⟨h1, h2⟩, h3⟩, h4⟩, h5⟩)
 
 end Hv.C20
